@@ -129,6 +129,13 @@ where
                 pos: self.pos + payload_offset,
             }));
         }
+        if !last && next_offset % FlexVec::<T, L>::ALIGN != 0 {
+            // The next offset slot (and item) would be misaligned.
+            return Some(Err(Error {
+                kind: ErrorKind::InvalidData,
+                pos: self.pos,
+            }));
+        }
 
         if (!last && next_offset > data.bytes().len()) || payload_offset > data.bytes().len() {
             return Some(Err(Error {
